@@ -45,6 +45,28 @@ func (p *enumPlan) snapshot() (used bool, n, delivered int, fired bool) {
 	return p.used, p.n, p.delivered, p.fired
 }
 
+// queryGate holds the idx-th Query of a datastore (counted from 0) until the
+// harness releases it: either at its entry (pos < 0, before the snapshot is
+// taken) or right before entry number pos is handed out (pos is clipped to the
+// number of entries). It lets a sequential harness step an asynchronous build.
+type queryGate struct {
+	pos     int
+	entered chan struct{}
+	proceed chan struct{}
+	once    sync.Once
+}
+
+func newGate(pos int) *queryGate {
+	return &queryGate{pos: pos, entered: make(chan struct{}), proceed: make(chan struct{})}
+}
+
+func (g *queryGate) hold() {
+	g.once.Do(func() {
+		close(g.entered)
+		<-g.proceed
+	})
+}
+
 // ---------------------------------------------------------------- write faults
 
 // writePlan is armed for one top-level mutating call and fires at the first
@@ -109,9 +131,10 @@ type faultDS struct {
 	under ds.Batching
 	delay *delayCfg
 
-	mu sync.Mutex
-	ef *enumPlan
-	wf *writePlan
+	mu    sync.Mutex
+	ef    *enumPlan
+	wf    *writePlan
+	gates map[int64]*queryGate // by Query index; set before the store is used
 
 	queries atomic.Int64
 	writes  atomic.Int64
@@ -327,14 +350,18 @@ func (b *faultBatch) Commit(ctx context.Context) error {
 }
 
 func (d *faultDS) Query(ctx context.Context, q dsq.Query) (dsq.Results, error) {
-	d.queries.Add(1)
+	qidx := d.queries.Add(1) - 1
 	if d.onQuery != nil {
 		d.onQuery()
 	}
 	d.mu.Lock()
-	plan := d.ef
+	plan := d.ef // (taken before a possible hold: a plan armed later belongs to a later Query)
 	d.ef = nil
 	d.mu.Unlock()
+	gate := d.gates[qidx]
+	if gate != nil && gate.pos < 0 {
+		gate.hold()
+	}
 
 	d.delay.pause()
 	res, err := d.under.Query(ctx, q) // MutexDatastore: snapshot of all entries under its lock
@@ -368,6 +395,9 @@ func (d *faultDS) Query(ctx context.Context, q dsq.Query) (dsq.Results, error) {
 			}
 			if d.delay != nil && d.delay.slowEnum {
 				d.delay.pause()
+			}
+			if gate != nil && gate.pos >= 0 && (i == gate.pos || (i >= len(entries) && gate.pos >= len(entries))) {
+				gate.hold()
 			}
 			if plan != nil && plan.mode != enumNone && i == plan.pos {
 				plan.mu.Lock()
